@@ -1,6 +1,6 @@
 (* C20 — property theorems only. Each is closed by [exact] of a lemma of Proofs.v. *)
 From Coq Require Import List ZArith QArith Bool Permutation.
-From Gst Require Import lib.QAux C20.Model C20.Spec C20.Proofs.
+From Gst Require Import lib.QAux C20.Model C20.Spec C20.Proofs C20.Generic.
 Import ListNotations.
 Local Open Scope Q_scope.
 
@@ -12,6 +12,15 @@ Theorem C20_half_open : forall (pts : list pt) (q : pt),
   ~ on_boundary pts q -> inside2d pts q = Z.odd (count_cross (fst q) (snd q) pts).
 Proof. exact inside2d_half_open. Qed.
 Print Assumptions C20_half_open.
+
+(* ... which is the crossing count of a generic ray (no vertex-level special case: strict straddling only)
+   cast from a point infinitesimally below the query: the textbook definition of interior. *)
+Theorem C20_generic_ray : forall (pts : list pt) (q : pt),
+  ~ on_boundary pts q ->
+  exists d, 0 < d /\ forall e, 0 < e -> e < d ->
+    inside2d pts q = Z.odd (count_generic (fst q) (snd q - e) pts).
+Proof. exact inside2d_generic_ray. Qed.
+Print Assumptions C20_generic_ray.
 
 (* One loop iteration (what a change to PolyElem::inside would break first) *)
 Theorem C20_edge_rule : forall xx yy x0 y0 x1 y1 inter,
